@@ -311,6 +311,7 @@ func writeRetry(w io.Writer, b []byte, retries uint) (n int, err error) {
 			b = b[wn:]
 		}
 		retries--
+		verifYield("write.retry")
 	}
 }
 
@@ -329,6 +330,7 @@ func writeStreamRetry(w MultistreamWriter, b []byte, stream, retries uint) (n in
 			b = b[wn:]
 		}
 		retries--
+		verifYield("write.retry")
 	}
 }
 
